@@ -14,7 +14,7 @@ RULE = ("histories of 5-60 calls: add_rule (5 canned behaviours: constant, decli
         "of 1-5 items, index 0, gaps, duplicate indices, unknown family), interleaved with evaluations of matching and non-matching lines; "
         "oracles: (1) every return value against the specification; (2) at every checkpoint the probe lines evaluate exactly as on a FRESH "
         "calculator on which only the surviving non-declining rules and the accepted families were registered in the same order; (3) constant / "
-        "echo rules produce their token with fields bound by name; (4) user families convert by the exact rational factor of their chain; tie: "
+        "echo rules produce their token with fields bound by name; two rules with a match each are both applied in every registration order; (4) user families convert by the exact rational factor of their chain; tie: "
         "the whole history is replayed on the Lean model (return values and every line result); non-trivial = history containing a deletion or a "
         "rejected call; distinct = distinct histories")
 ASSUMPTIONS = ["rule behaviours are the six canned RuleTrait implementations (constant, decline, echo a field, sum, money, accept-only-a-given-word) shared by the harness and the model (ApiKind)",
@@ -200,6 +200,7 @@ def run(ctx, model_ok):
     rng = ctx.rng
     cfg = C.json.load(open(C.REPO + "/src/json/config.json", encoding="utf-8"))
     builtin = {f["name"] for f in cfg["types"]}
+    two_rule_effects(ctx)
     hist = curated_histories(rng) + [gen_history(rng, rng.randint(5, 60)) for _ in range(ctx.n(120, 2500))]
     now = C.run_impl([{"op": "now"}])[0]
     for hi, H in enumerate(hist):
@@ -310,6 +311,27 @@ def run(ctx, model_ok):
                         break
         if len(ctx.samples) < 6 and nontrivial and rng.random() < 0.1:
             ctx.sample({"history": [C.json.dumps(o, ensure_ascii=False)[:120] for o in H[:8]], "length": len(H)})
+
+
+def two_rule_effects(ctx):
+    """effect of two registered rules on a line with a match for each: every match of a registered rule is rewritten, whichever rule
+    was registered first and whatever was deleted and registered again before (the words of the other rule are not touched)"""
+    for word, v in (("btc", 1000), ("eth", 42)):
+        when = {"op": "rule_add", "lang": "en", "name": "r1", "kind": "when", "patterns": ["{NUMBER:n} {TEXT:w}"], "field": "w", "word": word, "v": v}
+        coin = {"op": "rule_add", "lang": "en", "name": "r2", "kind": "coin", "patterns": ["{NUMBER:n} voucher"], "v": 100, "cur": "usd"}
+        dele = lambda n: {"op": "rule_del", "lang": "en", "name": n}
+        for pre in ([when, coin], [coin, when], [when, coin, dele("r1"), when], [coin, when, dele("r2"), coin], [when, coin, dele("r2"), dele("r1"), coin, when]):
+            for text, want in ((f"5 voucher 10 {word}", ("M", 100.0 + v, "USD")), (f"7 {word}", ("N", float(v))), ("9 voucher", ("M", 100.0, "USD")),
+                               (f"5 voucher + 10 {word}", ("M", 100.0 + v, "USD")), (f"(5 voucher) 10 {word}", ("M", 100.0 + v, "USD"))):
+                ops = [{"op": "reset"}] + pre + [{"op": "exec", "lang": "en", "text": text}]
+                r = C.run_impl(ops)[-1]
+                l = r["lines"][0] if "lines" in r and r["lines"] else None
+                val = l.get("ok") if l and "ok" in l else None
+                got = None if val is None else ((val["t"], O.f64(val["v"]), val["cur"]) if val["t"] == "M" else (val["t"], O.f64(val["v"])) if val["t"] == "N" else (val["t"],))
+                ctx.count("two-rule-effects")
+                ctx.seen(("two-rule", C.json.dumps(pre), text), True)
+                if got != want:
+                    ctx.oracle_fail({"class": "effect:two-rules", "what": f"with both rules registered '{text}' evaluates to {got}, every match rewritten gives {want}", "ops": ops + [{"op": "reset"}]})
 
 
 def mult(code):
